@@ -442,112 +442,122 @@ Definition pool_truthy (v : option N) : bool := match v with Some n => negb (N.e
 
 (* Rendering. root = true: ns are the children of a RootNode and c is the context it is rendered in
    (RootNode.Render, node.go:1492); root = false: ns is a list of nodes rendered one after the other.
-   g d supplies the left-over values of a context acquired at fuel level d. *)
+   g d supplies the left-over values of a context acquired at fuel level d. fuel bounds the nesting,
+   gas the number of nodes visited (so that the machine stays cheap to run in states where a released
+   and reused root has made the template map cyclic); the remaining gas is returned. *)
 Fixpoint pool_eval (fuel : nat) (rv : N -> pool_lres) (g : nat -> pool_garbage) (root : bool)
-                   (c : pool_ctx) (ns : list pool_tree) : pool_ev :=
+                   (c : pool_ctx) (ns : list pool_tree) (gas : nat) : pool_ev * nat :=
   match fuel with
-  | O => (PRFuel, [])
+  | O => ((PRFuel, []), gas)
   | S f =>
+    match gas with
+    | O => ((PRFuel, []), O)
+    | S gas0 =>
     if root then
       (* extending, blocks, blockChain are read; every block of this template joins the chain *)
-      if negb (pool_touch c [b#"extending"; b#"blocks"; b#"blockChain"]) then (PRGarbage, [])
+      if negb (pool_touch c [b#"extending"; b#"blocks"; b#"blockChain"]) then ((PRGarbage, []), gas0)
       else
         let d := pool_collect_all ns (pool_defs_of (pool_cget c b#"blockChain")) in
         let c1 := pool_cset c b#"blockChain" (FVChain d) in
         match pool_find_extends ns with
         | Some t =>
           (* ExtendsNode.Render, node.go:663 *)
-          if negb (pool_touch c1 [b#"engine"; b#"env"; b#"context"; b#"sandboxed"; b#"parentBlocks"; b#"blocks"]) then (PRGarbage, [])
+          if negb (pool_touch c1 [b#"engine"; b#"env"; b#"context"; b#"sandboxed"; b#"parentBlocks"; b#"blocks"]) then ((PRGarbage, []), gas0)
           else
             match rv t with
-            | PLErr e => (PRErr e, [t])
-            | PLBad => (PRGarbage, [t])
+            | PLErr e => ((PRErr e, [t]), gas0)
+            | PLBad => ((PRGarbage, [t]), gas0)
             | PLOk pns =>
               let pc := pool_ctx_new (g f) (pool_vars_of (pool_cget c1 b#"context")) in
               let pc := pool_cset (pool_cset (pool_cset (pool_cset pc b#"extending" FVTrue)
                           b#"sandboxed" (pool_fv_or_nil (pool_cget c1 b#"sandboxed")))
                           b#"lastLoadedTemplate" FVPtr) b#"blockChain" (FVChain d) in
-              pool_seq (PROut [], [t]) (pool_eval f rv g true pc pns)
+              let '(r, gas1) := pool_eval f rv g true pc pns gas0 in
+              (pool_seq (PROut [], [t]) r, gas1)
             end
-        | None => pool_eval f rv g false c1 ns
+        | None => pool_eval f rv g false c1 ns gas0
         end
     else
       match ns with
-      | [] => (PROut [], [])
+      | [] => ((PROut [], []), gas0)
       | PoolT k pl cs :: rest =>
-        let this : pool_ev :=
-          if N.eqb k pk_text then (PROut [PAText (pool_pl pl 0)], [])
+        let '(this, gas1) :=
+          if N.eqb k pk_text then ((PROut [PAText (pool_pl pl 0)], []), gas0)
           else if N.eqb k pk_var then
             (* PrintNode -> GetVariable *)
-            if negb (pool_touch c [b#"context"; b#"env"; b#"parent"]) then (PRGarbage, [])
-            else (PROut (match pool_getvar c (pool_pl pl 0) with Some v => [PAVal v] | None => [] end), [])
+            if negb (pool_touch c [b#"context"; b#"env"; b#"parent"]) then ((PRGarbage, []), gas0)
+            else ((PROut (match pool_getvar c (pool_pl pl 0) with Some v => [PAVal v] | None => [] end), []), gas0)
           else if N.eqb k pk_fail then
             (* ApplyFilter: the sandbox test, then the filter, which fails *)
-            if negb (pool_touch c [b#"sandboxed"; b#"env"]) then (PRGarbage, []) else (PRErr EOther, [])
+            if negb (pool_touch c [b#"sandboxed"; b#"env"]) then ((PRGarbage, []), gas0) else ((PRErr EOther, []), gas0)
           else if N.eqb k pk_include then
             (* IncludeNode.Render, node.go:782 *)
-            let t := pool_pl pl 0 in
-            if negb (pool_touch c [b#"context"; b#"env"; b#"parent"; b#"engine"]) then (PRGarbage, [])
+            if negb (pool_touch c [b#"context"; b#"env"; b#"parent"; b#"engine"]) then ((PRGarbage, []), gas0)
             else
-              match rv t with
-              | PLErr ENotFound => if N.eqb (pool_pl pl 1) 0 then (PRErr ENotFound, [t]) else (PROut [], [t])
-              | PLErr e => (PRErr e, [t])
-              | PLBad => (PRGarbage, [t])
+              match rv (pool_pl pl 0) with
+              | PLErr ENotFound => if N.eqb (pool_pl pl 1) 0 then ((PRErr ENotFound, [pool_pl pl 0]), gas0) else ((PROut [], [pool_pl pl 0]), gas0)
+              | PLErr e => ((PRErr e, [pool_pl pl 0]), gas0)
+              | PLBad => ((PRGarbage, [pool_pl pl 0]), gas0)
               | PLOk ins =>
-                if negb (pool_touch c [b#"sandboxed"; b#"lastLoadedTemplate"; b#"blocks"; b#"macros"]) then (PRGarbage, [t])
+                if negb (pool_touch c [b#"sandboxed"; b#"lastLoadedTemplate"; b#"blocks"; b#"macros"]) then ((PRGarbage, [pool_pl pl 0]), gas0)
                 else
-                  let ic := pool_cset (pool_ctx_clone (g f) c) b#"lastLoadedTemplate" FVPtr in
-                  pool_seq (PROut [], [t]) (pool_eval f rv g true ic ins)
+                  let '(r, gas2) := pool_eval f rv g true (pool_cset (pool_ctx_clone (g f) c) b#"lastLoadedTemplate" FVPtr) ins gas0 in
+                  (pool_seq (PROut [], [pool_pl pl 0]) r, gas2)
               end
           else if N.eqb k pk_block then
             (* BlockNode.Render, node.go:611: the most derived definition of the name *)
-            if negb (pool_touch c [b#"blockChain"; b#"currentBlock"; b#"currentDefs"; b#"blockDepth"]) then (PRGarbage, [])
+            if negb (pool_touch c [b#"blockChain"; b#"currentBlock"; b#"currentDefs"; b#"blockDepth"]) then ((PRGarbage, []), gas0)
             else
-              let body := match pool_defs_lookup (pool_defs_of (pool_cget c b#"blockChain")) (pool_pl pl 0) with
-                          | Some (first :: _) => first
-                          | _ => cs
-                          end in
-              pool_eval f rv g false c body
+              pool_eval f rv g false c
+                (match pool_defs_lookup (pool_defs_of (pool_cget c b#"blockChain")) (pool_pl pl 0) with
+                 | Some (first :: _) => first
+                 | _ => cs
+                 end) gas0
           else if N.eqb k pk_macro then
             (* MacroNode.Render: ctx.macros[name] = n *)
-            if negb (pool_touch c [b#"macros"]) then (PRGarbage, []) else (PROut [], [])
+            if negb (pool_touch c [b#"macros"]) then ((PRGarbage, []), gas0) else ((PROut [], []), gas0)
           else if N.eqb k pk_call then
             (* ImportNode.Render (node.go:1207), then FunctionNode with a module expression and CallMacro (node.go:1138) *)
-            let t := pool_pl pl 0 in
-            if negb (pool_touch c [b#"context"; b#"env"; b#"parent"; b#"engine"; b#"sandboxed"]) then (PRGarbage, [])
+            if negb (pool_touch c [b#"context"; b#"env"; b#"parent"; b#"engine"; b#"sandboxed"]) then ((PRGarbage, []), gas0)
             else
-              match rv t with
-              | PLErr e => (PRErr e, [t])
-              | PLBad => (PRGarbage, [t])
+              match rv (pool_pl pl 0) with
+              | PLErr e => ((PRErr e, [pool_pl pl 0]), gas0)
+              | PLBad => ((PRGarbage, [pool_pl pl 0]), gas0)
               | PLOk mns =>
-                let ic := pool_cset (pool_ctx_new (g f) []) b#"lastLoadedTemplate" FVPtr in
-                match pool_eval f rv g true ic mns with
-                | (PROut _, l1) =>                                  (* rendered to io.Discard *)
+                match pool_eval f rv g true (pool_cset (pool_ctx_new (g f) []) b#"lastLoadedTemplate" FVPtr) mns gas0 with
+                | ((PROut _, l1), gas2) =>                                  (* rendered to io.Discard *)
                   match pool_find_macro mns (pool_pl pl 1) with
-                  | None => (PRErr EOther, t :: l1)                 (* function not found *)
+                  | None => ((PRErr EOther, pool_pl pl 0 :: l1), gas2)       (* function not found *)
                   | Some body =>
-                    if negb (pool_touch c [b#"lastLoadedTemplate"]) then (PRGarbage, t :: l1)
+                    if negb (pool_touch c [b#"lastLoadedTemplate"]) then ((PRGarbage, pool_pl pl 0 :: l1), gas2)
                     else
-                      let mc := pool_ctx_new (g f) [(0%N, pool_getvar c (pool_pl pl 2))] in
-                      let mc := pool_cset (pool_cset (pool_cset mc
-                                  b#"parent" (FVParent (pool_vars_of (pool_cget c b#"context") :: pool_chain_of (pool_cget c b#"parent"))))
-                                  b#"lastLoadedTemplate" (pool_fv_or_nil (pool_cget c b#"lastLoadedTemplate")))
-                                  b#"sandboxed" (pool_fv_or_nil (pool_cget c b#"sandboxed")) in
-                      pool_seq (PROut [], t :: l1) (pool_eval f rv g false mc body)
+                      let '(r, gas3) :=
+                        pool_eval f rv g false
+                          (pool_cset (pool_cset (pool_cset (pool_ctx_new (g f) [(0%N, pool_getvar c (pool_pl pl 2))])
+                             b#"parent" (FVParent (pool_vars_of (pool_cget c b#"context") :: pool_chain_of (pool_cget c b#"parent"))))
+                             b#"lastLoadedTemplate" (pool_fv_or_nil (pool_cget c b#"lastLoadedTemplate")))
+                             b#"sandboxed" (pool_fv_or_nil (pool_cget c b#"sandboxed")))
+                          body gas2 in
+                      (pool_seq (PROut [], pool_pl pl 0 :: l1) r, gas3)
                   end
-                | (r, l1) => (r, t :: l1)
+                | ((r, l1), gas2) => ((r, pool_pl pl 0 :: l1), gas2)
                 end
               end
           else if N.eqb k pk_if then
-            if negb (pool_touch c [b#"context"; b#"env"; b#"parent"]) then (PRGarbage, [])
-            else if pool_truthy (pool_getvar c (pool_pl pl 0)) then pool_eval f rv g false c cs else (PROut [], [])
-          else (PROut [], [])                                       (* extends below the top level, unknown kinds: nothing *)
+            if negb (pool_touch c [b#"context"; b#"env"; b#"parent"]) then ((PRGarbage, []), gas0)
+            else if pool_truthy (pool_getvar c (pool_pl pl 0)) then pool_eval f rv g false c cs gas0 else ((PROut [], []), gas0)
+          else ((PROut [], []), gas0)                                       (* extends below the top level, unknown kinds: nothing *)
         in
-        pool_seq this (pool_eval f rv g false c rest)
+        match this with
+        | (PROut _, _) => let '(r, gas4) := pool_eval f rv g false c rest gas1 in (pool_seq this r, gas4)
+        | _ => (this, gas1)
+        end
       end
+    end
   end.
 
 Definition pool_eval_fuel : nat := 400.
+Definition pool_eval_gas : nat := 20000.
 
 (* Engine.Render(name, vars): Load, NewRenderContext, lastLoadedTemplate, RootNode.Render *)
 Definition pool_render (st : pool_store) (g : nat -> pool_garbage) (s : pool_state) (e : nat) (n : N) (vars : list (N * N)) : pool_ev :=
@@ -556,7 +566,7 @@ Definition pool_render (st : pool_store) (g : nat -> pool_garbage) (s : pool_sta
   | PLBad => (PRGarbage, [n])
   | PLOk ns =>
     let c := pool_cset (pool_ctx_new (g pool_eval_fuel) (map (fun xv => (fst xv, Some (snd xv))) vars)) b#"lastLoadedTemplate" FVPtr in
-    pool_seq (PROut [], [n]) (pool_eval pool_eval_fuel (pool_resolve st s e) g true c ns)
+    pool_seq (PROut [], [n]) (fst (pool_eval pool_eval_fuel (pool_resolve st s e) g true c ns pool_eval_gas))
   end.
 
 (* ------------------------------------------------------------------ operations *)
